@@ -48,6 +48,7 @@ type Gen struct {
 	fillDone     bool
 	fillCreate   int
 	fillWrite    int
+	queue        []Op  // operations that must come next
 	unstableFile *gobj // a file with acknowledged unstable data not yet committed
 }
 
@@ -56,6 +57,7 @@ type pending struct {
 	parent *gobj
 	target *gobj
 	dst    *gobj
+	tag    string
 }
 
 func defaultWeights() map[string]int {
@@ -228,6 +230,15 @@ func (g *Gen) nextFill() (Op, bool) {
 
 // Next produces the next operation.
 func (g *Gen) Next() Op {
+	if len(g.queue) > 0 {
+		o := g.queue[0]
+		g.queue = g.queue[1:]
+		o.Id = g.id()
+		if o.Proc == "commit" && g.unstableFile != nil {
+			g.pend = &pending{target: g.unstableFile, op: o}
+		}
+		return o
+	}
 	if g.filling > 0 {
 		if o, ok := g.nextFill(); ok {
 			return o
@@ -284,6 +295,16 @@ func (g *Gen) try(k string) (Op, bool) {
 		o = Op{Proc: "write", H: f.sym, Off: g.offset(f), Cnt: n, Stable: uint32(g.rng.Intn(3)),
 			Data: DataSpec{Pat: true, Len: n, Seed: uint64(g.rng.Intn(250))}}
 		g.pend = &pending{target: f}
+	case "abortcommit": // unstable data pending; a refused request on that file; then a good COMMIT
+		f := g.unstableFile
+		if f == nil || f.dead {
+			return o, false
+		}
+		o = Op{Proc: "commit", H: f.sym, Off: f.size + 10, Cnt: 10}
+		if g.rng.Intn(2) == 0 {
+			o = Op{Proc: "write", H: f.sym, Off: 0, Cnt: 50, Stable: 0, Data: DataSpec{Pat: true, Len: 7, Seed: 1}} // count mismatch
+		}
+		g.queue = append(g.queue, Op{Proc: "commit", H: f.sym})
 	case "giveback":
 		if g.filler == nil || g.filler.dead || !g.fillDone || g.filler.size < 4*4096 {
 			return o, false
@@ -300,7 +321,7 @@ func (g *Gen) try(k string) (Op, bool) {
 		n := uint64(1 + g.rng.Intn(5000))
 		o = Op{Proc: "write", H: f.sym, Off: offs[g.rng.Intn(len(offs))]*4096 + uint64(g.rng.Intn(2))*100, Cnt: n, Stable: 2,
 			Data: DataSpec{Pat: true, Len: n, Seed: uint64(g.rng.Intn(250))}}
-		g.pend = &pending{target: f}
+		g.pend = &pending{target: f, tag: "indwrite"}
 	case "bigwrite":
 		f := g.pick(1)
 		if f == nil {
@@ -475,6 +496,16 @@ func (g *Gen) try(k string) (Op, bool) {
 		default:
 			o = Op{Proc: p, H: x.sym, Name: "f0"}
 		}
+	case "twin":
+		if g.unstableFile != nil {
+			if g.unstableFile.dead {
+				return o, false
+			}
+			o = Op{Proc: "commit", H: g.unstableFile.sym}
+			g.pend = &pending{target: g.unstableFile}
+			break
+		}
+		o = Op{Proc: "twin"}
 	case "restart":
 		if g.unstableFile != nil && !g.unstableFile.dead {
 			// unstable data may legitimately be lost by a restart: make it durable first
@@ -549,6 +580,26 @@ func (g *Gen) Observe(o Op, r Reply) {
 	}
 	p := g.pend
 	g.pend = nil
+	if p != nil && p.op.Id == o.Id && p.tag == "indwrite" && r.Code != 0 && g.filler != nil && !g.filler.dead && len(g.queue) == 0 {
+		// a write into the index range failed part-way: let another file allocate, free some space,
+		// repeat the write, and read the other file back
+		var other *gobj
+		for _, x := range g.live {
+			if x.kind == 1 && x != p.target && x != g.filler {
+				other = x
+				break
+			}
+		}
+		if other != nil && g.filler.size >= 4*4096 {
+			g.queue = append(g.queue,
+				// zero data: if the block is (wrongly) also used as an index block it reads as "no pointers"
+				Op{Proc: "write", H: other.sym, Off: (other.size + 4095) / 4096 * 4096, Cnt: 4096, Stable: 2, Data: DataSpec{Lit: make([]byte, 4096)}},
+				Op{Proc: "setattr", H: g.filler.sym, HasSize: true, Size: (g.filler.size/4096 - 3) * 4096},
+				Op{Proc: "write", H: p.target.sym, Off: o.Off, Cnt: o.Cnt, Stable: 2, Data: o.Data},
+				Op{Proc: "read", H: other.sym, Off: 0, Cnt: other.size + 8192},
+				Op{Proc: "getattr", H: other.sym})
+		}
+	}
 	if r.Code != 0 || p == nil || p.op.Id != o.Id {
 		return
 	}
